@@ -96,9 +96,10 @@ class TensorNetwork:
         # insert vectors filled with ones for output axes which are not connected
         # to an actual tensor, e.g., identity wires
         shape = self.shape
-        for j in idxout:
+        for k, j in enumerate(idxout):
             if not any(j in tidx[i] for i in range(len(tidx))):
-                args.append(np.ones(shape[axes_map.index(j)]))
+                # `axes_map` refers to positions in `idxout`, not to the index labels
+                args.append(np.ones(shape[axes_map.index(k)]))
                 args.append([j])
         args.append(idxout)
         return np.einsum(*args, optimize=True), axes_map
